@@ -49,6 +49,7 @@ def run(ctx, rep):
     used_span_rule(f, rep, 'C20.9')
     cli_arith_rule(ctx.bin, rep, 'C20.10')
     used_kind_rule(f, rep, 'C20.11')
+    l1_count_rule(f, rep, 'C20.12', 'C20.13')
 
 
 def format_rounding_rule(f, rep, rid):
@@ -113,6 +114,118 @@ def format_rounding_rule(f, rep, rid):
                               'that is not a whole number of clusters loses its last cluster - it gets no refcount, the formatted '
                               'image is invalid and the allocator hands the cluster out again' % (name, short_vn(cl)[:160]))
     rep.floor('table cluster counts of the formatter', n, 2)
+
+
+def l1_count_rule(f, rep, rid_cover, rid_agree):
+    """Two facts about the number of L1 entries, decided by engine F on the formatter for each cluster size (the size stays
+    symbolic; sub-terms that are constant for the cluster size are folded, the floor lemmas of the linear layer do the rest):
+    cover - the entry count the table is sized from covers the virtual size: entries * (bytes mapped by one L1 entry)
+    >= size, unless it is capped by the format limit.  A count that rounds down drops the last, partial L1 entry: the device
+    never loads it (guest clusters behind it read as zeros) and the formatter gives the table one cluster too few.
+    agree - the l1_size stored in the header equals that count (below the cap): the L1 clusters are reserved and
+    refcounted for that count, a larger l1_size declares entries in a cluster that has refcount 0."""
+    from ..align import AlignInt
+    from ..absint import short_vn
+    from ..linear import LinProver
+    rep.rule(rid_cover, 'the L1 entry count derived from the virtual size covers it (entries << (2*cluster_bits - 3) >= size, below the format cap) for every cluster size')
+    rep.rule(rid_agree, 'format: the l1_size written to the header equals the entry count the L1 clusters are reserved for, for every cluster size')
+    path = 'meta::header::Qcow2Header::format_qcow2'
+    b = f.body(path)
+    if b is None:
+        raise AnalysisError('format_qcow2 not found')
+    names = [x['n'] for x in f.adts['meta::header::Qcow2RawHeader']['variants'][0]['fields']]
+    if 'l1_size' not in names:
+        raise AnalysisError('raw header has no l1_size')
+    li = names.index('l1_size')
+    # parameters: the u64 is the size, the first usize the cluster_bits
+    tys = [f.tstr(t) for t in b.locals[1:b.argc + 1]]
+    if 'u64' not in tys or 'usize' not in tys:
+        raise AnalysisError('format_qcow2: unexpected parameters %s' % tys)
+    p_size, p_cb = tys.index('u64') + 1, tys.index('usize') + 1
+
+    def peel(v):
+        k = 0
+        while isinstance(v, tuple) and v and v[0] in ('wrap', 'cast') and k < 8:
+            v = v[1]
+            k += 1
+        return v
+    bad_cover, bad_agree, n = [], [], 0
+    for cbv in range(9, 22):
+        ai = AlignInt(f)
+        got = {}
+
+        def grab(ai_, st, frame, b_, bi, t, res, got=got):
+            got['alloc'] = (res, st.copy())
+        ai.after_call['::get_max_l1_entries'] = grab
+
+        def on_stmt(ai_, st, frame, b_, bi, si, s_, v, got=got):
+            if v[0] == 'agg' and v[1] == 'meta::header::Qcow2RawHeader':
+                got['hdr'] = (v, st.copy())
+        ai.stmt_hook = on_stmt
+
+        def setup(ai_, st, frame, b_, cbv=cbv):
+            st.env[(('L', frame, p_cb), ())] = ('c', cbv)
+        frame, exits, _ = ai.analyze(path, setup)
+        if 'alloc' not in got or 'hdr' not in got:
+            raise AnalysisError('format_qcow2: %s not seen by engine F (cluster_bits %d)' % (
+                'the L1 entry count helper' if 'alloc' not in got else 'the raw header aggregate', cbv))
+        res, st = got['alloc']
+        hv, st2 = got['hdr']
+
+        def fold(v, d=0):
+            if not isinstance(v, tuple) or not v or d > 30 or v[0] == 'c':
+                return v
+            try:
+                i = ai.itvof(st2, v)
+            except Exception:
+                i = None
+            if i is not None and i[0] == i[1] and v[0] in ('bin', 'wrap', 'cast'):
+                return ('c', i[0])
+            if v[0] == 'bin':
+                return ('bin', v[1], fold(v[2], d + 1), fold(v[3], d + 1))
+            if v[0] in ('wrap', 'cast'):
+                return (v[0], fold(v[1], d + 1)) + tuple(v[2:])
+            if v[0] in ('min', 'max'):
+                return (v[0], fold(v[1], d + 1), fold(v[2], d + 1))
+            return v
+        a = peel(fold(peel(res)))
+        if a[0] == 'min':
+            # capped by the format limit: the other component is the count
+            qa = peel(a[1]) if a[2][0] == 'c' else peel(a[2])
+        else:
+            qa = a
+        qh = peel(fold(peel(hv[3][li])))
+        size = st2.env[(('L', frame, p_size), ())]
+        n += 1
+        lp = LinProver(ai, st2, ('c', 2 * cbv - 3))
+        try:
+            cover = lp.prove_ge0(lp.M(lp.lin(qa)).add(lp.lin(size), -1))
+        except RecursionError:
+            cover = False
+        try:
+            agree = lp.prove_le(qh, qa) and lp.prove_le(qa, qh)
+        except RecursionError:
+            agree = False
+        if not cover:
+            bad_cover.append((cbv, short_vn(qa)[:120]))
+        if not agree:
+            bad_agree.append((cbv, short_vn(qh)[:100], short_vn(qa)[:100]))
+    rep.floor('formatter runs for the L1 entry count (cluster sizes)', n, 13)
+    rep.ob(rid_cover, 'get_max_l1_entries over %d cluster sizes' % n, not bad_cover,
+           'entries << (2*cluster_bits-3) >= size proved in each' if not bad_cover else 'cluster_bits %d: entries = %s' % bad_cover[0])
+    if bad_cover:
+        rep.violation(rid_cover, '%s:l1_entries' % rid_cover, b.where(0),
+                      'the L1 entry count (%s for cluster_bits %d) is not proved to cover the virtual size: with a size that is not a '
+                      'multiple of what one L1 entry maps the last entry is missing - the device sizes its L1 table from this '
+                      'count, so guest clusters behind it read as unallocated, and the formatter reserves one L1 cluster too few' % (
+                          bad_cover[0][1], bad_cover[0][0]))
+    rep.ob(rid_agree, 'header l1_size vs reserved count over %d cluster sizes' % n, not bad_agree,
+           'equal in each' if not bad_agree else 'cluster_bits %d: l1_size = %s, reserved for %s' % bad_agree[0])
+    if bad_agree:
+        rep.violation(rid_agree, '%s:l1_size' % rid_agree, b.where(0),
+                      'format_qcow2 writes l1_size = %s (cluster_bits %d) but reserves and refcounts the L1 clusters for %s entries: '
+                      'when the two differ the header declares L1 entries in a cluster with refcount 0 (an independent checker '
+                      'rejects the image; the allocator hands that cluster out)' % (bad_agree[0][1], bad_agree[0][0], bad_agree[0][2]))
 
 
 def walk_rule(f, rep, rid):
